@@ -16,7 +16,7 @@ RULE = ("cases = seeded APIs spanning the operation_info type-resolution matrix 
         "type, where and on which channel polls arrive, the GetOperation request, and type + content of result()/metadata; "
         "distinct = distinct (response location, metadata location, qualification, history, client kind) that held")
 ASSUMPTIONS = ["polling sleeps go through a virtual clock patched into google.api_core.retry", "REST long-running operations are exercised for the synchronous REST transport only",
-               "types in proto sub-packages are not generated"]
+               "proto sub-packages appear only as sibling sub-packages (service package + one sibling); root files next to sub-packages do not import on the unchanged tree (DESIGN 10.2)"]
 CASE_TIMEOUT = 400
 PARALLEL = 12
 CODES = {3: "INVALID_ARGUMENT", 5: "NOT_FOUND", 7: "PERMISSION_DENIED", 9: "FAILED_PRECONDITION", 13: "INTERNAL", 14: "UNAVAILABLE"}
@@ -25,13 +25,15 @@ CODES = {3: "INVALID_ARGUMENT", 5: "NOT_FOUND", 7: "PERMISSION_DENIED", 9: "FAIL
 def floors(tier):
     k = 1 if tier == "quick" else 8
     return {"lro_histories": 300 * k, "polls_observed": 300 * k, "results_typed": 150 * k, "errors_mapped": 60 * k, "rejections_checked": (4 if tier == "quick" else 20),
-            "raw_operation_calls": 16 * k, "resp:far": 30 * k, "meta:far": 30 * k, "resp:empty": 20 * k, "client:aio": 120 * k, "rest_lro_histories": 40 * k}
+            "raw_operation_calls": 16 * k, "resp:far": 30 * k, "meta:far": 30 * k, "resp:empty": 20 * k, "client:aio": 120 * k, "rest_lro_histories": 40 * k, "meta:sibling": 10 * k}
 
 
 def plan(seed, tier):
     n = 10 if tier == "quick" else 90
     cases = [{"id": f"lro-{seed}-{i}", "seed": seed * 100003 + i, "broken": None} for i in range(n)]
     cases += [{"id": f"lro-rest-{seed}-{i}", "seed": seed * 100003 + 3000 + i, "broken": None, "rest": ["unlisted", "listed", "norules"][i % 3]} for i in range(max(6, n // 3))]
+    # the service in a proto sub-package next to a sibling sub-package (relative names are relative to the method's package)
+    cases += [{"id": f"lro-sub-{seed}-{i}", "seed": seed * 100003 + 5000 + i, "broken": None, "subpkg": True} for i in range(max(3, n // 4))]
     for i, b in enumerate(["no_response", "no_metadata", "both_empty"] * (2 if tier == "quick" else 8)):
         cases.append({"id": f"lro-bad-{seed}-{i}", "seed": seed * 100003 + 7000 + i, "broken": b})
     return cases
@@ -39,14 +41,13 @@ def plan(seed, tier):
 
 def build_api(case):
     rng = random.Random(case["seed"])
-    return apigen.lro_api(rng, "j%d" % (case["seed"] % 100000), broken=case["broken"], rest=case.get("rest") or False)
+    return apigen.lro_api(rng, "j%d" % (case["seed"] % 100000), broken=case["broken"], rest=case.get("rest") or False,
+                          subpkg=bool(case.get("subpkg")))
 
 
 def resolve(pkg, name):
     """operation_info type names are resolved relative to the method's package."""
-    if name.startswith(("google.protobuf.", "google.rpc.", "google.type.")):
-        return name
-    return name if name.startswith(pkg + ".") else pkg + "." + name
+    return name if "." in name else pkg + "." + name      # a name without a dot is relative (google.longrunning.OperationInfo)
 
 
 def op_json(op, mtype, rtype, model):
@@ -101,7 +102,7 @@ def run_case(case):
             continue
         if not info:
             continue
-        rtype, mtype = resolve(pkg, info[0]), resolve(pkg, info[1])
+        rtype, mtype = resolve(p.package, info[0]), resolve(p.package, info[1])      # relative to the METHOD's package
         for kind in (("grpc", "aio", "rest") if api.info.get("rest_lro") else ("grpc", "aio")):
             for k in rng.sample([0, 1, 2, 3], 2):
                 for outcome in ("response", "error"):
@@ -147,7 +148,7 @@ def run_case(case):
                                   "rtype": rtype, "mtype": mtype, "expected_result": rdm.b64(res.SerializeToString()),
                                   "expected_meta": rdm.b64((meta2 if first_reply is not last or True else meta).SerializeToString()),
                                   "first_done": first_reply is last, "code": code, "where": api.info["lro"][m.name]})
-    script = {"root_pkg": apigen.lib_root(api.info, api.options), "calls": calls}
+    script = {"root_pkg": apigen.lib_root(api.info, api.options) + ("." + api.info["sub"] if api.info.get("sub") else ""), "calls": calls}
     ev, rc, err = pipeline.run_runner("checks.c08", script, lib, timeout=300)
     if ev is None or "runner_crash" in ev or "library_import_error" in ev:
         return pipeline.runner_failed_result(ev, rc, err, api)
